@@ -25,5 +25,9 @@ RecordOK ==
       [] R.kind = "retained" -> R.seq = <<"apply", "pub", "listen">>
       \* (C08) an event sent on the QueryRequest inside a query callback
       [] R.kind = "querycb"  -> R.seq = <<"apply", "pub", "listen">>
+      \* (C08) listener A answers the custom event with a follow-up event sent through ev.Resource: the follow-up is
+      \* published and handed to both listeners, and B still gets the custom event as it was sent
+      [] R.kind = "nested"   -> R.seq = <<"pub:custom", "A:custom{\"n\":1}", "pub:followup", "A:followup{\"n\":2}",
+                                          "B:followup{\"n\":2}", "B:custom{\"n\":1}">>
       [] OTHER -> FALSE
 =============================================================================
